@@ -1,9 +1,24 @@
 package main
 
+import (
+	"bytes"
+	"context"
+	"encoding/json"
+	"fmt"
+	"go/types"
+	"os"
+	"os/exec"
+	"path/filepath"
+	"regexp"
+	"strings"
+	"time"
+)
+
 // ReplayResult records the attempt to reproduce a counterexample on the real code.
 type ReplayResult struct {
 	Template  string            `json:"template"`
 	TestFile  string            `json:"test_file,omitempty"`
+	TestName  string            `json:"test_name,omitempty"`
 	Cmd       string            `json:"cmd,omitempty"`
 	Values    map[string]string `json:"values,omitempty"`
 	Output    string            `json:"output,omitempty"`
@@ -11,6 +26,411 @@ type ReplayResult struct {
 	Note      string            `json:"note,omitempty"`
 }
 
-func tryReplay(rd *runData, ob *Obligation, prop, dir, name string) *ReplayResult {
+// runOverlayTest runs one in-package test of /repo/leader injected through
+// `go test -overlay` (nothing is written into the repository).
+func runOverlayTest(repo, testFile, testName string, race bool, timeout time.Duration) (string, bool, error) {
+	tmp, err := os.MkdirTemp("", "govc-replay-")
+	if err != nil {
+		return "", false, err
+	}
+	defer os.RemoveAll(tmp)
+	ov := map[string]map[string]string{"Replace": {filepath.Join(repo, "leader", filepath.Base(testFile)): testFile}}
+	b, _ := json.Marshal(ov)
+	ovPath := filepath.Join(tmp, "ov.json")
+	if err := os.WriteFile(ovPath, b, 0o644); err != nil {
+		return "", false, err
+	}
+	args := []string{"test", "-overlay", ovPath, "-vet=off", "-count=1", "-timeout", fmt.Sprintf("%ds", int(timeout.Seconds())), "-run", "^" + testName + "$", "-v"}
+	if race {
+		args = append(args, "-race")
+	}
+	args = append(args, ".")
+	ctx, cancel := context.WithTimeout(context.Background(), timeout+60*time.Second)
+	defer cancel()
+	cmd := exec.CommandContext(ctx, "go", args...)
+	cmd.Dir = filepath.Join(repo, "leader")
+	// the repository needs its own (auto-switched) toolchain: do not force the local one here
+	env := []string{}
+	for _, kv := range os.Environ() {
+		if strings.HasPrefix(kv, "GOTOOLCHAIN=") || strings.HasPrefix(kv, "GOFLAGS=") || strings.HasPrefix(kv, "GOSUMDB=") || strings.HasPrefix(kv, "PATH=") {
+			continue
+		}
+		env = append(env, kv)
+	}
+	path := os.Getenv("PATH")
+	path = strings.ReplaceAll(path, "/opt/veriftools/go1.26.8/bin:", "")
+	env = append(env, "GOFLAGS=-mod=mod", "GOPROXY=off", "PATH="+path)
+	cmd.Env = env
+	var out bytes.Buffer
+	cmd.Stdout = &out
+	cmd.Stderr = &out
+	runErr := cmd.Run()
+	s := out.String()
+	failed := runErr != nil && (strings.Contains(s, "--- FAIL") || strings.Contains(s, "panic:") || strings.Contains(s, "DATA RACE") || strings.Contains(s, "fatal error"))
+	if runErr != nil && !failed {
+		return s, false, fmt.Errorf("go test did not run the replay: %v", runErr)
+	}
+	return s, failed, nil
+}
+
+var knownRE = regexp.MustCompile(`^(.*)::(Test\w+)$`)
+
+// cmdReplay: ./check --replay <path>
+//   <file>::<TestName>   run a known-finding replay test; exit 1 if the defect reproduces
+//   <record>.json        show a recorded violation and re-run its generated test, if any
+func cmdReplay(repo, path string) int {
+	if m := knownRE.FindStringSubmatch(path); m != nil {
+		file := m[1]
+		if !filepath.IsAbs(file) {
+			file = filepath.Join(verifDir, file)
+		}
+		out, failed, err := runOverlayTest(repo, file, m[2], strings.Contains(m[2], "_Race_"), 120*time.Second)
+		fmt.Print(out)
+		if err != nil {
+			fmt.Fprintln(os.Stderr, "ENGINE-ERROR:", err)
+			return 2
+		}
+		if failed {
+			fmt.Println("REPLAY: the violation reproduces on the current tree")
+			return 1
+		}
+		fmt.Println("REPLAY: the violation does not reproduce on the current tree")
+		return 0
+	}
+	b, err := os.ReadFile(path)
+	if err != nil {
+		fmt.Fprintln(os.Stderr, "ENGINE-ERROR:", err)
+		return 2
+	}
+	var rec map[string]interface{}
+	if err := json.Unmarshal(b, &rec); err != nil {
+		fmt.Fprintln(os.Stderr, "ENGINE-ERROR: not a replay record:", err)
+		return 2
+	}
+	fmt.Printf("property:   %v\nobligation: %v\nclause:     %v\nwhere:      %v\nverdict:    %v (%v)\n", rec["property"], rec["obligation"], rec["clause"], rec["where"], rec["verdict"], rec["backend"])
+	if d, ok := rec["detail"].(string); ok && d != "" {
+		fmt.Println("detail:    ", d)
+	}
+	if rp, ok := rec["replay"].(map[string]interface{}); ok {
+		tf, _ := rp["test_file"].(string)
+		tn, _ := rp["test_name"].(string)
+		if tf != "" && tn != "" {
+			out, failed, err := runOverlayTest(repo, tf, tn, false, 120*time.Second)
+			fmt.Print(out)
+			if err != nil {
+				fmt.Fprintln(os.Stderr, "ENGINE-ERROR:", err)
+				return 2
+			}
+			if failed {
+				fmt.Println("REPLAY: the counterexample reproduces on the current tree")
+				return 1
+			}
+			fmt.Println("REPLAY: the counterexample does not reproduce on the current tree")
+			return 0
+		}
+	}
+	if so, ok := rec["solver_output"].(string); ok {
+		fmt.Println("solver output (no executable replay for this obligation family):")
+		if len(so) > 3000 {
+			so = so[:3000] + "\n..."
+		}
+		fmt.Println(so)
+	}
+	return 1
+}
+
+// modelValues asks the solver for the values of the given terms in the
+// counterexample of one obligation part.
+func modelValues(u *Unit, part oblPart, terms map[string]Term, workDir, name string) map[string]string {
+	if len(terms) == 0 {
+		return nil
+	}
+	q := u.query(part, true)
+	q = strings.Replace(q, "(get-model)\n", "", 1)
+	var names []string
+	var b strings.Builder
+	b.WriteString("(get-value (")
+	for _, k := range sortedKeys(terms) {
+		names = append(names, k)
+		b.WriteString(terms[k].S + " ")
+	}
+	b.WriteString("))\n")
+	file := filepath.Join(workDir, name+".values.smt2")
+	_ = os.WriteFile(file, []byte(q+b.String()), 0o644)
+	for _, sp := range solvers[:2] {
+		_, out, _ := runSolver(sp, file, 20, 0)
+		if !strings.HasPrefix(strings.TrimSpace(out), "sat") {
+			continue
+		}
+		body := out[strings.Index(out, "sat")+3:]
+		vals := parseGetValue(body)
+		if len(vals) != len(names) {
+			continue
+		}
+		res := map[string]string{}
+		for i, n := range names {
+			res[n] = vals[i]
+		}
+		return res
+	}
 	return nil
+}
+
+// parseGetValue extracts the value part of each (term value) pair.
+func parseGetValue(s string) []string {
+	s = strings.TrimSpace(s)
+	if !strings.HasPrefix(s, "(") {
+		return nil
+	}
+	// split top-level pairs
+	var pairs []string
+	depth, start := 0, -1
+	for i, c := range s {
+		switch c {
+		case '(':
+			depth++
+			if depth == 2 {
+				start = i
+			}
+		case ')':
+			if depth == 2 && start >= 0 {
+				pairs = append(pairs, s[start:i+1])
+				start = -1
+			}
+			depth--
+		}
+	}
+	var out []string
+	for _, p := range pairs {
+		p = strings.TrimSpace(p[1 : len(p)-1])
+		// the value is the last top-level s-expression
+		d := 0
+		cut := -1
+		for i := len(p) - 1; i >= 0; i-- {
+			c := p[i]
+			if c == ')' {
+				d++
+			}
+			if c == '(' {
+				d--
+			}
+			if d == 0 && (c == ' ' || c == '\n') {
+				cut = i
+				break
+			}
+			if d == 0 && c == '(' {
+				cut = i - 1
+				break
+			}
+		}
+		v := strings.TrimSpace(p[cut+1:])
+		v = strings.ReplaceAll(strings.ReplaceAll(strings.ReplaceAll(v, "(- ", "-"), ")", ""), " ", "")
+		out = append(out, v)
+	}
+	return out
+}
+
+// tryReplay builds and runs an executable replay for the obligation
+// families that have a template.
+func tryReplay(rd *runData, ob *Obligation, prop, dir, name string) *ReplayResult {
+	if ob.Unit == nil || ob.Result == nil || ob.Result.Verdict != "sat" {
+		return nil
+	}
+	u := ob.Unit
+	part := ob.Parts[ob.Result.Part]
+	switch {
+	case (u.rootKey == "validateConfig" || u.rootKey == "newKVElection" || u.rootKey == "NewElection") && strings.HasPrefix(ob.Family, "C16."):
+		return replayConfig(rd, u, ob, part, dir, name)
+	case u.rootKey == "CalculateBackoff" && strings.HasPrefix(ob.Family, "C17."):
+		return replayBackoff(rd, u, ob, part, dir, name)
+	}
+	return nil
+}
+
+func leafTerms(prefix string, v Val, typ interface{}, out map[string]Term) {
+	switch x := v.(type) {
+	case *Scalar:
+		out[prefix] = x.T
+	case *StructV:
+		st := structFieldNames(x)
+		for i, f := range x.F {
+			n := fmt.Sprint(i)
+			if i < len(st) {
+				n = st[i]
+			}
+			leafTerms(prefix+"."+n, f, nil, out)
+		}
+	}
+}
+
+func structFieldNames(s *StructV) []string {
+	var names []string
+	if st, ok := s.Typ.Underlying().(*types.Struct); ok {
+		for i := 0; i < st.NumFields(); i++ {
+			names = append(names, st.Field(i).Name())
+		}
+	}
+	return names
+}
+
+const configReplayTmpl = `package leader
+
+import (
+	"testing"
+	"time"
+)
+
+type govcRecordingProvider struct{ contacted bool }
+
+func (p *govcRecordingProvider) JetStream() (JetStreamContext, error) {
+	p.contacted = true
+	return nil, ErrConnectionLost
+}
+
+// Generated by govc from the solver's counterexample to %s.
+func TestGovcReplay_Config(t *testing.T) {
+	cfg := ElectionConfig{
+		Bucket: %q, Group: %q, InstanceID: %q,
+		TTL: time.Duration(%s), HeartbeatInterval: time.Duration(%s),
+		ValidationInterval: time.Duration(%s), DisconnectGracePeriod: time.Duration(%s),
+		MaxConsecutiveFailures: %s, Priority: %s, AllowPriorityTakeover: %s,
+	}
+	valid := cfg.Bucket != "" && cfg.Group != "" && cfg.InstanceID != "" &&
+		cfg.TTL > 0 && cfg.HeartbeatInterval > 0 && cfg.TTL >= 3*cfg.HeartbeatInterval &&
+		(cfg.ValidationInterval == 0 || cfg.ValidationInterval >= cfg.HeartbeatInterval) &&
+		(cfg.DisconnectGracePeriod == 0 || cfg.DisconnectGracePeriod >= 2*cfg.HeartbeatInterval) &&
+		cfg.MaxConsecutiveFailures >= 0 && (!cfg.AllowPriorityTakeover || cfg.Priority > 0)
+	err := validateConfig(cfg)
+	if (err == nil) != valid {
+		t.Fatalf("VIOLATION-REPRODUCED: documented predicate says valid=%%v but validateConfig returned %%v for %%+v", valid, err, cfg)
+	}
+	if err != nil {
+		ve, ok := err.(*ValidationError)
+		if !ok {
+			t.Fatalf("VIOLATION-REPRODUCED: error is not a *ValidationError: %%T", err)
+		}
+		offends := map[string]bool{
+			"Bucket": cfg.Bucket == "", "Group": cfg.Group == "", "InstanceID": cfg.InstanceID == "",
+			"TTL": cfg.TTL <= 0 || (cfg.HeartbeatInterval > 0 && cfg.TTL < 3*cfg.HeartbeatInterval),
+			"HeartbeatInterval": cfg.HeartbeatInterval <= 0,
+			"ValidationInterval": cfg.ValidationInterval != 0 && cfg.ValidationInterval < cfg.HeartbeatInterval,
+			"DisconnectGracePeriod": cfg.DisconnectGracePeriod != 0 && cfg.DisconnectGracePeriod < 2*cfg.HeartbeatInterval,
+			"MaxConsecutiveFailures": cfg.MaxConsecutiveFailures < 0,
+			"Priority": cfg.AllowPriorityTakeover && cfg.Priority <= 0,
+		}
+		if !offends[ve.Field] {
+			t.Fatalf("VIOLATION-REPRODUCED: error names field %%q, which does not offend, for %%+v", ve.Field, cfg)
+		}
+	}
+	p := &govcRecordingProvider{}
+	_, nerr := NewElection(p, cfg)
+	if !valid && nerr == nil {
+		t.Fatalf("VIOLATION-REPRODUCED: NewElection accepted an invalid configuration %%+v", cfg)
+	}
+	if !valid && p.contacted {
+		t.Fatalf("VIOLATION-REPRODUCED: NewElection contacted the store before rejecting %%+v", cfg)
+	}
+}
+`
+
+func replayConfig(rd *runData, u *Unit, ob *Obligation, part oblPart, dir, name string) *ReplayResult {
+	cfg, ok := u.entryParams["cfg"].(*StructV)
+	if !ok {
+		return nil
+	}
+	terms := map[string]Term{}
+	leafTerms("cfg", cfg, nil, terms)
+	vals := modelValues(u, part, terms, dir, name)
+	if vals == nil {
+		return &ReplayResult{Template: "config", Note: "could not read the model values"}
+	}
+	str := func(k string) string {
+		if vals[k] == "0" {
+			return ""
+		}
+		return "x" + vals[k]
+	}
+	num := func(k string) string {
+		if v, ok := vals[k]; ok && v != "" {
+			return v
+		}
+		return "0"
+	}
+	src := fmt.Sprintf(configReplayTmpl, ob.Name, str("cfg.Bucket"), str("cfg.Group"), str("cfg.InstanceID"),
+		num("cfg.TTL"), num("cfg.HeartbeatInterval"), num("cfg.ValidationInterval"), num("cfg.DisconnectGracePeriod"),
+		num("cfg.MaxConsecutiveFailures"), num("cfg.Priority"), num("cfg.AllowPriorityTakeover"))
+	file := filepath.Join(dir, name+"_replay_test.go")
+	_ = os.WriteFile(file, []byte(src), 0o644)
+	out, failed, err := runOverlayTest(rd.eng.repo, file, "TestGovcReplay_Config", false, 90*time.Second)
+	rr := &ReplayResult{Template: "config", TestFile: file, TestName: "TestGovcReplay_Config", Values: vals, Output: tail(out, 3000), Confirmed: failed && strings.Contains(out, "VIOLATION-REPRODUCED"),
+		Cmd: "./check --replay " + filepath.Join(dir, name+".json")}
+	if err != nil {
+		rr.Note = err.Error()
+	}
+	return rr
+}
+
+const backoffReplayTmpl = `package leader
+
+import (
+	"math"
+	"testing"
+	"time"
+)
+
+// Generated by govc from the solver's counterexample to %s.
+func TestGovcReplay_Backoff(t *testing.T) {
+	cfg := BackoffConfig{InitialBackoff: time.Duration(%s), MaxBackoff: time.Duration(%s), BackoffMultiplier: %s, Jitter: %s}
+	attempt := %s
+	base := math.Min(float64(cfg.MaxBackoff), float64(cfg.InitialBackoff)*math.Pow(cfg.BackoffMultiplier, float64(attempt)))
+	for i := 0; i < 20000; i++ {
+		d := float64(CalculateBackoff(cfg, attempt))
+		if d < 0 || d > base*(1+cfg.Jitter)+1 || d < base*(1-cfg.Jitter)-1 {
+			t.Fatalf("VIOLATION-REPRODUCED: CalculateBackoff(%%+v, %%d) = %%v outside [%%v, %%v]", cfg, attempt, time.Duration(d), base*(1-cfg.Jitter), base*(1+cfg.Jitter))
+		}
+	}
+}
+`
+
+func replayBackoff(rd *runData, u *Unit, ob *Obligation, part oblPart, dir, name string) *ReplayResult {
+	terms := map[string]Term{}
+	if c, ok := u.entryParams["cfg"].(*StructV); ok {
+		leafTerms("cfg", c, nil, terms)
+	}
+	if a, ok := u.entryParams["attempt"].(*Scalar); ok {
+		terms["attempt"] = a.T
+	}
+	vals := modelValues(u, part, terms, dir, name)
+	if vals == nil {
+		return &ReplayResult{Template: "backoff", Note: "could not read the model values"}
+	}
+	real := func(k string) string {
+		v := vals[k]
+		if strings.HasPrefix(v, "(/") || strings.HasPrefix(v, "/") {
+			fs := strings.Fields(strings.Trim(v, "(/)"))
+			if len(fs) == 2 {
+				return fs[0] + "/" + fs[1]
+			}
+		}
+		if v == "" {
+			return "0"
+		}
+		return v
+	}
+	src := fmt.Sprintf(backoffReplayTmpl, ob.Name, vals["cfg.InitialBackoff"], vals["cfg.MaxBackoff"], real("cfg.BackoffMultiplier"), real("cfg.Jitter"), vals["attempt"])
+	file := filepath.Join(dir, name+"_replay_test.go")
+	_ = os.WriteFile(file, []byte(src), 0o644)
+	out, failed, err := runOverlayTest(rd.eng.repo, file, "TestGovcReplay_Backoff", false, 90*time.Second)
+	rr := &ReplayResult{Template: "backoff", TestFile: file, TestName: "TestGovcReplay_Backoff", Values: vals, Output: tail(out, 3000), Confirmed: failed && strings.Contains(out, "VIOLATION-REPRODUCED")}
+	if err != nil {
+		rr.Note = err.Error()
+	}
+	return rr
+}
+
+func tail(s string, n int) string {
+	if len(s) <= n {
+		return s
+	}
+	return "..." + s[len(s)-n:]
 }
